@@ -33,8 +33,10 @@ ENCODED = ["twisted.mail.smtp:xtext_encode", "twisted.mail.smtp:xtext_decode",
            "twisted.mail.imap4:modified_base64", "twisted.mail.imap4:modified_unbase64"]
 BOUNDS = {"quick": {"x": 3, "u": 2}, "thorough": {"x": 4, "u": 3}}
 B = {}
-BOUNDS_TEXT = ("utf7_run: one symbolic non-ASCII character repeated 29/30/57/58 times (astral: 15 times), optionally "
-               "followed by one symbolic printable character.  corpus (concrete, real code, outside the exhaustive "
+BOUNDS_TEXT = ("utf7_run: runs of 29/30/57/58 non-ASCII characters (15 astral ones) in which the first, the 57-byte-"
+               "boundary or the last character is symbolic (any character of that width class) and the others a "
+               "concrete filler, optionally followed by one symbolic printable character (quick: runs of 29, 58 and "
+               "15 astral with the symbolic character at the boundary).  corpus (concrete, real code, outside the exhaustive "
                "claim): runs of 1..300 characters.  "
                "xtext: every string of <= x code points < 256 (x=3 quick, 4 thorough).  IMAP modified UTF-7: "
                "every string of <= u code points (u=2 quick, 3 thorough) over all of Unicode except surrogates, "
@@ -384,6 +386,17 @@ def _concrete(x):
     return x
 
 
+def _untraced(fn, *args):
+    """run fn on concrete arguments outside CrossHair's tracing (the real C helpers must see the
+    real builtins)"""
+    import sys
+    if "crosshair" in sys.modules:
+        from crosshair.tracers import NoTracing
+        with NoTracing():
+            return fn(*args)
+    return fn(*args)
+
+
 def _note_degraded(what, exc):
     msg = "DEGRADED: lifted %s raised %s: %s - evaluated on the real code with concrete inputs" % (
         what, type(exc).__name__, str(exc)[:120])
@@ -464,7 +477,7 @@ def xtext(s: str) -> bool:
             if S.__real__:
                 raise
             _note_degraded("xtext codec", e)
-    return _xtext_prop(_RS.xtext_encode, _RS.xtext_decode, _concrete(s))
+    return _untraced(_xtext_prop, _RS.xtext_encode, _RS.xtext_decode, _concrete(s))
 
 
 # ---- IMAP4 modified UTF-7 ------------------------------------------------------------------------
@@ -526,7 +539,7 @@ def _utf7(s):
             if I.__real__:
                 raise
             _note_degraded("imap4 codec", e)
-    return _utf7_prop(_RI.encoder, _RI.decoder, _concrete(s))
+    return _untraced(_utf7_prop, _RI.encoder, _RI.decoder, _concrete(s))
 
 
 def utf7(s: str) -> bool:
@@ -541,30 +554,42 @@ def utf7(s: str) -> bool:
 _RUNS = [29, 30, 57, 58]
 
 
-def utf7_run(c: str, nsel: int, tail: str) -> bool:
+def utf7_run(c: str, nsel: int, psel: int, tail: str) -> bool:
     """
     pre: len(c) == 1 and ord(c) >= 0x80 and not (0xD800 <= ord(c) <= 0xDFFF)
-    pre: 0 <= nsel <= len(_RUNS) and len(tail) <= 1
+    pre: 0 <= nsel <= len(_RUNS) and 0 <= psel <= 2 and len(tail) <= 1
     pre: all(0x20 <= ord(x) <= 0x7e for x in tail)
     post: _
     """
-    # long base64 runs: one symbolic non-ASCII character repeated 29 / 30 / 57 / 58 times (the run
-    # then crosses the 57-byte / 76-character line length of MIME base64), an astral character
-    # repeated 15 times; optionally followed by one symbolic printable character
+    # long base64 runs (they cross the 57-byte / 76-character line length of MIME base64): 29 / 30 /
+    # 57 / 58 non-ASCII characters, or 15 astral ones.  One character of the run - the first, the one
+    # at the 57-byte boundary or the last - is symbolic (any character of its UTF-16 width class), the
+    # others are a concrete filler of the same class; optionally one symbolic printable character
+    # follows.  (A run of one symbolic character repeated 29 times was measured at 495 CPU s per
+    # shard; the real-code corpus below covers uniform runs concretely.)
     k = 0
     for i in range(len(_RUNS) + 1):
         if nsel == i:
             k = i
+    p = 0
+    for i in range(3):
+        if psel == i:
+            p = i
+    o = ord(c)
     if k == len(_RUNS):
-        if ord(c) < 0x10000:
+        if o < 0x10000:
             return True
-        n = 15
+        n, filler, mid = 15, "\U0001f600", 14
     else:
-        if ord(c) >= 0x10000:
+        if o >= 0x10000:
             return True
-        n = _RUNS[k]
-    cc = "".join([c[0]])
-    return _utf7(cc * n + ("".join([tail[0]]) if len(tail) == 1 else ""))
+        n, mid = _RUNS[k], 28
+        filler = "\xe9" if o < 0x100 else "\u4e2d"
+    pos = [0, mid, n - 1][p]
+    s = filler * pos + "".join([c[0]]) + filler * (n - 1 - pos)
+    if len(tail) == 1:
+        s = s + "".join([tail[0]])
+    return _utf7(s)
 
 
 _CLASSES = {
@@ -639,16 +664,17 @@ def corpus(tier):
 CUSTOM = [corpus]
 
 HARNESSES = [
-    H(utf7_run, shards=[("nsel == %d" % i, "len(tail) == %d" % j) for i in range(len(_RUNS) + 1) for j in (0, 1)],
-      timeout={"quick": 90, "thorough": 600}),
+    H(utf7_run, shards=lambda tier: ([("nsel == %d" % i, "psel == 1") for i in (0, 3, 4)] if tier == "quick" else
+                                     [("nsel == %d" % i, "psel == %d" % q) for i in range(len(_RUNS) + 1) for q in range(3)]),
+      timeout={"quick": 100, "thorough": 600}),
     H(xtext, shards=lambda tier: [("len(s) == %d" % k,) for k in range(0, BOUNDS[tier]["x"] + 1)],
       timeout={"quick": 90, "thorough": 900}),
     H(utf7, shards=_utf7_shards, timeout={"quick": 90, "thorough": 900}),
 ]
 
 VECTORS = {
-    "utf7_run": [("\xe9", 0, ""), ("\u4e2d", 1, "a"), ("\u20ac", 2, "-"), ("\xff", 3, "&"), ("\U0001f600", 4, ""),
-                 ("\U0010ffff", 4, "z")],
+    "utf7_run": [("\xe9", 0, 0, ""), ("\u4e2d", 1, 1, "a"), ("\u20ac", 2, 2, "-"), ("\xff", 3, 1, "&"),
+                 ("\U0001f600", 4, 0, ""), ("\U0010ffff", 4, 2, "z"), ("\x80", 3, 2, "")],
     "xtext": [("",), ("abc",), ("a+b=c",), (" \x00\xff",), ("+",), ("~!",), ("\x7f\x80",)],
     "utf7": [("Hello",), ("&",), ("a&b",), ("\n",), ("\t\r",), ("\xe9\n",), ("日本語",),
              ("~peter/mail/日本語/台北",), ("\U0001f600",), ("\x00&\x00",), ("a€b",),
